@@ -19,6 +19,7 @@ NAMED_COLS = ['a', 'b', 'c', 'd']
 
 class Pred:
   def __init__(self, name, cols, types, kind='concrete'):
+    self.anycols = set()    # ArgMin/ArgMax columns: any admissible winner is accepted on ties
     self.name = name
     self.cols = cols        # column names: col0.. / names / logica_value
     self.types = types      # parallel list of types
@@ -54,7 +55,7 @@ class Program:
     return '\n'.join(lines) + '\n'
 
   def ast(self):
-    return {'rules': self.rules, 'strata': self.strata()}
+    return {'rules': model_view(self.rules), 'strata': self.strata()}
 
 
 # ------------------------------------------------------------------------------------------------
@@ -139,8 +140,8 @@ class Printer:
 
   def args(self, args):
     out = []
-    for f, x in args:
-      if f.startswith('col') and f[3:].isdigit():
+    for i, (f, x) in enumerate(args):
+      if f == 'col%d' % i and not self.opt.get('explicit_cols'):
         out.append(self.expr(x, True))
       elif f == 'logica_value':
         out.append('logica_value: ' + self.expr(x, True))
@@ -354,6 +355,16 @@ class Gen:
         conj.append({'in': [V(v), V(lv)]})
         env[v] = 'int'
         ints.append(v)
+    if getattr(self, 'inj', None) and ints and rng.random() < 0.6:
+      v = self.fresh('j')
+      t, m = self.inj_call(2)
+      self._model_subst = getattr(self, '_model_subst', [])
+      eq = {'eq': [V(v), t]}
+      eq['$model'] = {'eq': [V(v), m]}
+      conj.append(eq)
+      env[v] = 'int'
+      ints.append(v)
+      self._prefer = v
     # in
     if self.on('in', 0.4):
       if ints and rng.random() < 0.4:
@@ -402,6 +413,22 @@ class Gen:
       neg = {'atom': q.name, 'args': nargs}
       if rng.random() < 0.3 and ints:
         neg = {'and': [neg, {'test': OP('>', V(rng.choice(ints)), L(rng.choice(INT_DOM)))}]}
+      if rng.random() < 0.35:
+        # nested negation: the inner one uses an outer (depth-0) variable and a variable of the outer negation
+        q2 = rng.choice(avail)
+        inner_args = []
+        nvars = [a[1]['var'] for a in nargs if 'var' in a[1] and a[1]['var'].startswith('n')]
+        for c, t in zip(q2.cols, q2.types):
+          same = [v for v, vt in env.items() if vt == t and v in ints + strs]
+          r2 = rng.random()
+          if same and r2 < 0.5:
+            inner_args.append([c, V(rng.choice(same))])
+          elif nvars and r2 < 0.8:
+            inner_args.append([c, V(rng.choice(nvars))])
+          elif q2.positional():
+            inner_args.append([c, V(self.fresh('n'))])
+        if inner_args:
+          neg = {'and': [neg if 'and' not in neg else neg, {'not': {'atom': q2.name, 'args': inner_args}}]}
       conj.append({'not': neg})
     # aggregating expression
     if self.on('aggexpr', 0.4) and depth == 0:
@@ -420,8 +447,8 @@ class Gen:
       if lints or ints:
         op = rng.choice(['Sum', 'Min', 'Max', 'Count', 'List'] + (['Set'] if 'agg' in self.mask else []))
         src = lints + (ints if rng.random() < 0.3 else [])
-        if not src:
-          src = ints
+        if not src or (ints and rng.random() < 0.25):
+          src = ints          # aggregated value mentions outer variables only
         e = V(rng.choice(src))
         if rng.random() < 0.3 and lints and ints:
           e = OP('+', V(rng.choice(lints)), V(rng.choice(ints)))
@@ -444,12 +471,26 @@ class Gen:
           if any(t == 'int' for t in q2.types) and 'm_loc' in loc2:
             inner = {'agg': rng.choice(['Sum', 'Max', 'Min']), 'e': V('m_loc'), 'body': {'atom': q2.name, 'args': a2}}
             vv = self.fresh('k')
-            body = {'and': [body, {'eq': [V(vv), inner]}]}
+            extra = [{'eq': [V(vv), inner]}]
             if rng.random() < 0.5:
+              # a sibling combine spelling its local variable the same way and using the first one's value
+              inner2 = {'agg': rng.choice(['Sum', 'Max', 'Min']), 'e': OP('+', V('m_loc'), V(vv)),
+                        'body': {'in': [V('m_loc'), L([rng.choice(INT_DOM) for _ in range(rng.randint(1, 3))])]}}
+              vv2 = self.fresh('k')
+              extra.append({'eq': [V(vv2), inner2]})
+              vv = vv2
+            body = {'and': ([body] if 'and' not in body else list(body['and'])) + extra}
+            if rng.random() < 0.6:
               e = OP('+', e, V(vv)) if op in ('Sum', 'Min', 'Max') else e
         v = self.fresh('g')
         conj.append({'eq': [V(v), {'agg': op, 'e': e, 'body': body}]})
         env[v] = 'int' if op in ('Sum', 'Min', 'Max', 'Count') else ('list', 'int')
+        if env[v] == 'int':
+          ints.append(v)
+          self._prefer = v
+          if rng.random() < 0.3:
+            conj.append({'test': OP(rng.choice(['IsNull', 'IsNotNull']), V(v))} if rng.random() < 0.5 else
+                        {'test': OP('>', V(v), L(rng.choice(INT_DOM)))})
         self.prog.features.add('aggexpr:' + op)
     # disjunction
     if self.on('disj', 0.3) and depth == 0 and ints:
@@ -562,6 +603,10 @@ class Gen:
           if kind == 'distinct' and not ints:
             continue
           chosen = rng.sample(scal, min(arity, len(scal)))
+          pref = getattr(self, '_prefer', None)
+          if pref and pref in env and env[pref] == 'int' and rng.random() < 0.7 and all(c[0] != pref for c in chosen):
+            chosen[0] = (pref, 'int')
+          self._prefer = None
           if kind == 'functional' and chosen[-1][1] != 'int':
             cands = [c for c in scal if c[1] == 'int']
             if not cands:
@@ -590,6 +635,7 @@ class Gen:
                 e = V(src) if rng.random() < 0.7 else OP('+', V(src), L(1))
                 ty = 'int' if op in ('Sum', 'Min', 'Max', 'Count') else ('list', 'int')
               aggs.append((op, e, ty))
+            self._anycols = {'ag%d' % j for j, (op, e, ty) in enumerate(aggs) if op in ('ArgMin', 'ArgMax')}
             for j, (op, e, ty) in enumerate(aggs):
               c = 'ag%d' % j
               sig[0].append(c)
@@ -634,13 +680,59 @@ class Gen:
     if len(rules) > 1:
       self.prog.features.add('multirule')
     p = Pred(name, list(sig[0]), list(sig[1]), kind)
+    if kind == 'distinct':
+      p.anycols = set(getattr(self, '_anycols', set()))
     self.prog.preds.append(p)
     self.prog.rules.extend(rules)
     return p
 
+  def gen_injectibles(self):
+    """Non-concrete (injectible-only) functional predicates; calls are hand-inlined in the model AST."""
+    rng = self.rng
+    self.inj = {}
+    if 'injectible' not in self.mask:
+      return
+    for i in range(rng.randint(1, 3)):
+      name = 'G%d' % i
+      kind = rng.choice(['agg', 'arith', 'ite'])
+      if kind == 'agg':
+        value = {'agg': rng.choice(['Sum', 'Max', 'Min']), 'e': OP(rng.choice(['*', '+']), V('m_loc'), V('p0')),
+                 'body': {'in': [V('m_loc'), L([rng.choice([1, 2, 3]) for _ in range(rng.randint(1, 3))])]}}
+        params = ['p0']
+      elif kind == 'arith':
+        value = OP(rng.choice(['+', '*', '-']), V('p0'), L(rng.choice([1, 2, 3])))
+        params = ['p0']
+      else:
+        value = {'if': [[OP('>', V('p0'), V('p1')), V('p0')]], 'else': OP('+', V('p1'), L(1))}
+        params = ['p0', 'p1']
+      self.inj[name] = (params, value)
+      rule = {'head': name, 'args': [['col%d' % j, V(pn)] for j, pn in enumerate(params)] + [['logica_value', value]],
+              'distinct': False, 'body': None}
+      self.prog.extra_text.append(Printer().rule(rule))
+      self.prog.features.add('injectible:' + kind)
+
+  def inj_call(self, depth):
+    """Returns (text-AST expression with calls, model-AST expression with the calls inlined by hand)."""
+    rng = self.rng
+    name = rng.choice(sorted(self.inj))
+    params, value = self.inj[name]
+    targs, margs = [], []
+    for _ in params:
+      if depth > 0 and rng.random() < 0.4:
+        t, m = self.inj_call(depth - 1)
+      else:
+        t = m = self.expr('int', 0)
+      targs.append(t)
+      margs.append(m)
+    call = {'call': name, 'args': [['col%d' % j, t] for j, t in enumerate(targs)]}
+    self.vcount += 1
+    inlined = subst(value, dict(zip(params, margs)), {'m_loc': 'm_inl%d' % self.vcount})
+    return call, inlined
+
   def generate(self):
     rng = self.rng
     avail = []
+    self.gen_injectibles()
     for i in range(rng.randint(*self.n_facts)):
       avail.append(self.gen_fact_pred(i))
     for i in range(rng.randint(*self.n_derived)):
@@ -670,6 +762,32 @@ class Gen:
       self.prog.features.add('kind:' + p.kind)
       if not p.positional():
         self.prog.features.add('named')
+
+
+def subst(e, sub, rename):
+  """Capture-free substitution of parameters in a (small) expression; `rename` renames local variables."""
+  if isinstance(e, dict):
+    if 'var' in e:
+      if e['var'] in sub:
+        return sub[e['var']]
+      if e['var'] in rename:
+        return {'var': rename[e['var']]}
+      return e
+    return {k: subst(v, sub, rename) for k, v in e.items()}
+  if isinstance(e, list):
+    return [subst(x, sub, rename) for x in e]
+  return e
+
+
+def model_view(x):
+  """The AST the reference evaluator receives: `$model` alternatives replace their text-side node."""
+  if isinstance(x, dict):
+    if '$model' in x:
+      return model_view(x['$model'])
+    return {k: model_view(v) for k, v in x.items()}
+  if isinstance(x, list):
+    return [model_view(v) for v in x]
+  return x
 
 
 def canon_value(v, t):
